@@ -2,6 +2,7 @@ package c01
 
 import (
 	"fmt"
+	"regexp"
 	"strings"
 	"testing"
 	"time"
@@ -22,6 +23,8 @@ func TestMain(m *testing.M) { pbt.Main(m, "C01") }
 
 type Case struct {
 	Src string `json:"src"`
+	// number of do expressions generated without catch clauses under the catch-keeps-pending-operands restriction
+	Pending int `json:"restricted_pending,omitempty"`
 }
 
 var worker *sb.Worker
@@ -140,8 +143,15 @@ func TestCorpusPrograms(t *testing.T) {
 	worker = sb.New("debug")
 	defer worker.Close()
 	pbt.Run(t, pbt.Prop[Case]{Name: "corpus_programs", Quick: 2500, Thorough: 60000,
-		Gen: func(t *rapid.T) Case { return Case{corpusSrc(t)} }, Oracle: oracle})
+		Gen: func(t *rapid.T) Case { return Case{Src: corpusSrc(t)} }, Oracle: oracle,
+		Known: []pbt.Known[Case]{{Key: kAttrPostfix, Match: func(c Case) bool { return attrPostfix.MatchString(c.Src) }}}})
 }
+
+// recorded finding (also C29 / C09): `recv.attr++` / `recv.attr--` compiles to bytecode that calls the setter
+// without a receiver on the operand stack; programs that contain the shape are excluded and counted
+const kAttrPostfix = "attribute-postfix-drops-receiver"
+
+var attrPostfix = regexp.MustCompile(`\.\s*[A-Za-z_]\w*\s*(\+\+|--)`)
 
 // collectionProgram: churn on the built-in collections (the std containers are written in Go with
 // unchecked arithmetic: capacities, tombstones, index normalisation): fill / drain / refill histories over
@@ -235,7 +245,7 @@ func TestCollectionPrograms(t *testing.T) {
 	worker = sb.New("debug")
 	defer worker.Close()
 	pbt.Run(t, pbt.Prop[Case]{Name: "collection_programs", Quick: 800, Thorough: 30000,
-		Gen: func(t *rapid.T) Case { return Case{collectionProgram(t)} }, Oracle: oracle})
+		Gen: func(t *rapid.T) Case { return Case{Src: collectionProgram(t)} }, Oracle: oracle})
 }
 
 // declSrc: bodies (top level, module, class) whose statements are a shuffle of value-producing
@@ -308,7 +318,7 @@ func TestDeclarationPrograms(t *testing.T) {
 	worker = sb.New("debug")
 	defer worker.Close()
 	pbt.Run(t, pbt.Prop[Case]{Name: "declaration_programs", Quick: 600, Thorough: 20000,
-		Gen: func(t *rapid.T) Case { return Case{declSrc(t)} },
+		Gen: func(t *rapid.T) Case { return Case{Src: declSrc(t)} },
 		Oracle: func(c Case, ctx *pbt.Ctx) error {
 			err := oracle(c, ctx)
 			if err == nil && (lastClass == sb.OK || lastClass == sb.ElkError) {
@@ -324,6 +334,21 @@ func TestMiniPrograms(t *testing.T) {
 	defer worker.Close()
 	prof := mini.Control
 	prof.Makers, prof.Deep, prof.ClosureBias = true, true, 2
+	// recorded finding (C14, same key): a catch handler keeps the operands that were pending when the error was
+	// thrown; a do/catch inside a catch clause or a finally block then corrupts the enclosing handler's operands,
+	// which the VM reports as a Go panic (RETHROW reads a foreign slot). Excluded by construction, counted.
+	prof.NoCatchInsideHandler = pbt.KnownActive(kPending)
 	pbt.Run(t, pbt.Prop[Case]{Name: "mini_programs", Quick: 600, Thorough: 20000,
-		Gen: func(t *rapid.T) Case { return Case{mini.Gen(t, prof).Source()} }, Oracle: oracle})
+		Gen: func(t *rapid.T) Case {
+			p := mini.Gen(t, prof)
+			return Case{Src: p.Source(), Pending: p.RestrictedPending}
+		},
+		Oracle: func(c Case, ctx *pbt.Ctx) error {
+			if c.Pending > 0 {
+				ctx.Excluded(kPending)
+			}
+			return oracle(c, ctx)
+		}})
 }
+
+const kPending = "catch-keeps-pending-operands"
